@@ -147,6 +147,14 @@ pub trait FieldExtension<const D: usize>: Field {
         ensures
             r == Self::spec_from_basefield(arr@),
     ;
+
+    // multiplication of an extension element by a base-field scalar (coordinate-wise; uninterpreted for an abstract extension)
+    spec fn spec_scalar_mul(self, s: Self::BaseField) -> Self;
+
+    fn scalar_mul(&self, s: Self::BaseField) -> (r: Self)
+        ensures
+            r == self.spec_scalar_mul(s),
+    ;
 }
 
 pub trait Extendable<const D: usize>: Field {
